@@ -1,13 +1,13 @@
 CONSTANTS
-  Verbs = {"get", "post"}
+  Verbs = {"post"}
   Rotate = TRUE
-  PathIds = {"none", "name2", "in2"}
+  PathIds = {"name2", "in2"}
   Bodies = {"", "*", "inner"}
   MaxExtra = 1
   ReqSetIds = {"names"}
-  PathValIds = {"i2", "s2"}
-  VarLeaves = {"name", "inner.name", "kind", "r_string"}
-  Numerics = {FALSE, TRUE}
+  PathValIds = {"i2"}
+  VarLeaves = {"name", "inner.name", "inner.kind", "r_string"}
+  Numerics = {TRUE}
   RespTypes = {"A"}
   ReplyIds = {"full"}
   Calls = 1
